@@ -14,10 +14,15 @@ import (
 )
 
 type c05Script struct {
-	ok  bool
-	msg []byte
-	err bool
+	ok    bool
+	msg   []byte
+	err   bool
+	delay time.Duration // the callback takes this long (not part of the model: the reply is the same)
 }
+
+// pause between the chunks of a request (a slow client), and the chunking to use (nil = random)
+var c05ChunkPause = 200 * time.Microsecond
+var c05ForceChunks []int
 
 type c05Srv struct {
 	mu     sync.Mutex
@@ -36,6 +41,9 @@ func (s *c05Srv) cb(login, password, service, realm string) (bool, string, error
 		}
 	}
 	s.mu.Unlock()
+	if sc.delay > 0 {
+		time.Sleep(sc.delay)
+	}
 	if sc.err {
 		return sc.ok, "ignored", errors.New(string(sc.msg))
 	}
@@ -70,7 +78,7 @@ func c05Conn(sock string, stream []byte, chunks []int, halfClose bool, wait time
 		if n > 0 {
 			uc.Write(stream[off : off+n])
 			off += n
-			time.Sleep(200 * time.Microsecond)
+			time.Sleep(c05ChunkPause)
 		}
 	}
 	if off < len(stream) {
@@ -126,6 +134,10 @@ func runC05(em *vEmitter, t *testing.T) {
 		if !halfClose {
 			wait = 250 * time.Millisecond
 		}
+		if c05ForceChunks != nil {
+			chunks = c05ForceChunks
+		}
+		wait += sc.delay + time.Duration(len(chunks))*c05ChunkPause
 		reply, got := c05Conn(sock, stream, chunks, halfClose, wait)
 		time.Sleep(300 * time.Microsecond)
 		srv.mu.Lock()
@@ -167,6 +179,16 @@ func runC05(em *vEmitter, t *testing.T) {
 			}
 		}
 	}
+	// (1b) time: a callback that takes longer than a client's default timeout (3 s in the PAM module), and a
+	// client that delivers its request in pieces over several seconds: one reply with the callback's verdict
+	for _, sc := range []c05Script{{ok: true, msg: []byte("slow but fine"), delay: 3600 * time.Millisecond},
+		{ok: false, msg: []byte("slow and wrong"), delay: 3600 * time.Millisecond}} {
+		emit(valid(), false, sc, "time/slow-callback")
+	}
+	c05ChunkPause, c05ForceChunks = 1250*time.Millisecond, []int{1, 2, 4}
+	emit(valid(), true, okSc, "time/slow-client")
+	emit([]byte{0, 5, 'a', 'l'}, true, noSc, "time/slow-client-truncated")
+	c05ChunkPause, c05ForceChunks = 200*time.Microsecond, nil
 	// (2) well-formed requests, with and without half-close, trailing bytes
 	n := 60
 	if vThorough() {
